@@ -457,8 +457,10 @@ func (g *c15Gen) inspectBytes(data []byte) (file.Info, bool) {
 var c15Key ed25519.PrivateKey
 
 func (g *c15Gen) emitCert(tag string, subj, iss []byte) {
+	// ed25519 only (deterministic); crypto calls get their own sub-generator so that the
+	// number of bytes they draw can never shift the case stream
 	if c15Key == nil {
-		_, c15Key, _ = ed25519.GenerateKey(g.c.R)
+		_, c15Key, _ = ed25519.GenerateKey(NewRng(g.c.R.U64()))
 	}
 	tmpl := &x509.Certificate{
 		SerialNumber: big.NewInt(int64(1 + g.c.R.Intn(1<<30))),
@@ -467,7 +469,7 @@ func (g *c15Gen) emitCert(tag string, subj, iss []byte) {
 		NotAfter:     time.Date(2034, 1, 1, 0, 0, 0, 0, time.UTC),
 	}
 	parent := &x509.Certificate{RawSubject: iss}
-	der, err := x509.CreateCertificate(g.c.R, tmpl, parent, c15Key.Public(), c15Key)
+	der, err := x509.CreateCertificate(NewRng(g.c.R.U64()), tmpl, parent, c15Key.Public(), c15Key)
 	if err != nil {
 		fmt.Fprintln(os.Stderr, "c15: CreateCertificate:", err)
 		return
